@@ -1,5 +1,6 @@
 import SeqVerif.Base.Proto
 import SeqVerif.Model.SearchDocs
+import SeqVerif.Model.ApiSearch
 /-!
 Driver for C05.  Lists: `,`; IDs `mid:rid`; QPR = `<ids>/<total>/<hist>` with hist = `nil` | `-` | `k=v,...`;
 several QPRs / fractions separated by `;`.  Requests:
@@ -13,7 +14,7 @@ several QPRs / fractions separated by `;`.  Requests:
   `proxymerge <desc> <offset> <size> <hi> <qpr;qpr;...>`                 -> `ok <qpr>` | `panic nil-map`
 Printed histogram: entries sorted by key.
 -/
-open SV SV.Proto SV.Merge
+open SV SV.Proto SV.Merge SV.Api
 
 def parseId (s : String) : Option Nat :=
   match s.splitOn ":" with
@@ -74,8 +75,60 @@ def parseFT (s : String) : Option Frac :=
 def indicesWhere {α} (p : α → Bool) (xs : List α) : List Nat :=
   ((List.range xs.length).zip xs).filterMap fun (i, x) => if p x then some i else none
 
+def parseRaw (s : String) : Option RawFrac :=
+  match s.splitOn "/" with
+  | [dt, f, t, ids] => do
+    pure { docsTotal := (← dt.toNat?), from_ := (← f.toNat?), to_ := (← t.toNat?), docs := (← parseIds ids) }
+  | _ => none
+
+def fmtResp : Resp → String
+  | .ok q => s!"ok {fmtQPR q}"
+  | .wantsOldData => "code INGESTOR_QUERY_WANTS_OLD_DATA"
+  | .tooManyFractions => "code TOO_MANY_FRACTIONS_HIT"
+  | .panic => "panic"
+
+def fmtBits (n : Nat) (vs : List Nat) : String := String.join ((List.range n).map fun i => if vs.contains i then "1" else "0")
+
+/-- `grpc <hot> <mature> <oldestCT> <perIter> <maxHits> <from> <to> <size> <offset> <interval> <wt> <order> <fracs>` -/
+def stepGrpc (f : List String) : String :=
+  match f with
+  | [hot, mature, oldest, per, mh, from_, to_, size, off, iv, wt, order, fracs] =>
+    match bool? hot, bool? mature, oldest.toNat?, per.toNat?, mh.toNat?, from_.toInt?, to_.toInt?, size.toInt?, off.toInt?,
+        iv.toInt?, bool? wt, order.toInt?, (splitList fracs ";").mapM parseRaw with
+    | some hot, some mature, some oldest, some per, some mh, some from_, some to_, some size, some off, some iv, some wt,
+        some order, some fs =>
+      fmtResp (grpcSearch ⟨hot, mature, oldest, per, mh⟩ fs ⟨from_, to_, size, off, iv, wt, order, false⟩)
+    | _, _, _, _, _, _, _, _, _, _, _, _, _ => "bad-op"
+  | _ => "bad-op"
+
+/-- `proxyreq <shuffle> <perIter> <maxHits> <from> <to> <size> <offset> <interval> <wt> <order> <shard|shard|...>`:
+two replicas per shard serving the same store, replica 0 of odd shards down, shuffle = "replica 1 first" -/
+def stepProxy (f : List String) : String :=
+  match f with
+  | [shuffle, per, mh, from_, to_, size, off, iv, wt, order, shards] =>
+    match bool? shuffle, per.toNat?, mh.toNat?, from_.toNat?, to_.toNat?, size.toInt?, off.toInt?, iv.toNat?, bool? wt,
+        order.toNat?, (shards.splitOn "|").mapM (fun s => (splitList s ";").mapM parseRaw) with
+    | some shuffle, some per, some mh, some from_, some to_, some size, some off, some iv, some wt, some order, some shs =>
+      let r : ProxyReq := ⟨from_, to_, size, off, iv, wt, order⟩
+      let visit := if shuffle then [1, 0] else [0, 1]
+      let ups := (List.range shs.length).map fun s => [decide (s % 2 = 0), true]
+      let answers := match apiRequest r with
+        | none => []
+        | some sr => shs.map fun fs => grpcSearch ⟨false, false, 0, per, mh⟩ fs sr
+      let asked := ",".intercalate (ups.map fun up => fmtBits 2 (visited visit up))
+      match proxySearch r answers with
+      | .ok q => s!"ok {fmtQPR q} asked={asked}"
+      | .invalidArgument => "err invalid-argument"
+      | .tooManyFractions => "err too-many-fractions"
+      | .panic => "panic"
+      | .otherError => "err other"
+    | _, _, _, _, _, _, _, _, _, _, _ => "bad-op"
+  | _ => "bad-op"
+
 def step (line : String) : String :=
   match fields line with
+  | "grpc" :: rest => stepGrpc rest
+  | "proxyreq" :: rest => stepProxy rest
   | ["merge", desc, limit, hi, dst, qs] =>
     match bool? desc, limit.toNat?, hi.toNat?, parseQPR dst, parseQPRs qs with
     | some desc, some limit, some hi, some dst, some qs =>
